@@ -187,6 +187,32 @@ type SeqRec struct {
 	Desc    string `json:"desc,omitempty"`
 	Letters string `json:"letters"`
 	Quals   []int  `json:"quals,omitempty"`
+	// GenN > 0: Letters (and Quals) are a deterministic pattern of that length,
+	// expanded when the case is run (keeps megabyte records out of the plan).
+	GenN int `json:"gen_n,omitempty"`
+}
+
+// expand materialises GenN records.
+func (pl *C01Plan) expand() {
+	for i := range pl.Recs {
+		rec := &pl.Recs[i]
+		if rec.GenN <= 0 || len(rec.Letters) == rec.GenN {
+			continue
+		}
+		set := alphaLetters[pl.Alpha]
+		b := make([]byte, rec.GenN)
+		for j := range b {
+			b[j] = set[(j*7+j/13+i)%len(set)]
+		}
+		rec.Letters = string(b)
+		if pl.Qual && pl.Format == "fastq" {
+			lo, hi := qRange(alphabet.Encoding(pl.Enc))
+			rec.Quals = make([]int, rec.GenN)
+			for j := range rec.Quals {
+				rec.Quals[j] = lo + (j*5)%(hi-lo+1)
+			}
+		}
+	}
 }
 
 type C01Plan struct {
@@ -204,6 +230,12 @@ type C01Plan struct {
 	// WriteFault > 0: additionally write the records to a medium that fails
 	// after WriteFault-1 bytes (0 = no write-fault pass).
 	WriteFault int `json:"write_fault,omitempty"`
+	// Reject > 0: the medium refuses the first call of the Write of record
+	// Reject-1 once (nothing accepted, temporary error) and works again
+	// afterwards; with Retry the caller writes that record again. The file
+	// must then hold exactly the records whose Write succeeded.
+	Reject int  `json:"reject,omitempty"`
+	Retry  bool `json:"retry,omitempty"`
 }
 
 var phredEncodings = []alphabet.Encoding{alphabet.Sanger, alphabet.Illumina1_3, alphabet.Illumina1_5, alphabet.Illumina1_8, alphabet.Illumina1_9}
@@ -299,6 +331,9 @@ func genC01(r *simrt.RNG) *Case {
 		if r.Bool() {
 			pl.WriteFault = 1 + r.Intn(200)
 		}
+	} else if len(pl.Recs) > 0 && r.Intn(6) == 0 {
+		pl.Reject = 1 + r.Intn(len(pl.Recs))
+		pl.Retry = r.Bool()
 	}
 	return &Case{Prop: "C01", Kind: pl.Format, Plan: marshalPlan(pl)}
 }
@@ -369,7 +404,73 @@ func writeSeqsTo(pl *C01Plan, sink *simio.Sink) ([]byte, int, *simrt.Violation) 
 			break
 		}
 	}
-	return sink.Buf, len(sink.Calls), nil
+	return sink.Buf, sink.NCalls, nil
+}
+
+// runReject: a destination that refuses one call at a record boundary.
+func runReject(pl *C01Plan, res *Result) *simrt.Violation {
+	site := "c01-" + pl.Format
+	sink := &simio.Sink{}
+	var w seqio.Writer
+	if pl.Format == "fasta" {
+		fw := fasta.NewWriter(sink, pl.Width)
+		if pl.SeqPrefix != "" {
+			fw.SeqPrefix = []byte(pl.SeqPrefix)
+		}
+		w = fw
+	} else {
+		fw := fastq.NewWriter(sink)
+		fw.QID = pl.QID
+		w = fw
+	}
+	var written []SeqRec
+	var v *simrt.Violation
+	pv := guard(func() {
+		for i := 0; i < len(pl.Recs); i++ {
+			rec := pl.Recs[i]
+			if i == pl.Reject-1 && !sink.Rejected {
+				sink.RejectCall = sink.NCalls + 1
+			}
+			before := len(sink.Buf)
+			n, err := w.Write(buildSeq(rec, pl))
+			if n != len(sink.Buf)-before {
+				v = viol(site+"-bytecount-on-failure", "record %d: Write returned n=%d but %d bytes were emitted (the medium refused one call; Write returned %v)", i, n, len(sink.Buf)-before, err)
+				return
+			}
+			if err != nil {
+				if len(sink.Buf) != before {
+					return // bytes of a failed record reached the medium: nothing more can be asked
+				}
+				if pl.Retry {
+					pl.Retry = false
+					i-- // the caller writes the same record again
+				}
+				continue
+			}
+			written = append(written, rec)
+		}
+	})
+	res.Steps = sink.NCalls
+	if pv != nil {
+		return pv
+	}
+	if v != nil || !sink.Rejected {
+		return v
+	}
+	res.Fired = append(res.Fired, simrt.IORecord{Kind: "write-call-refused-once"})
+	q := *pl
+	q.Recs = written
+	src := simio.NewSource(sink.Buf, pl.Delivery)
+	got, v := readSeqs(&q, src, len(written)+3)
+	res.Steps += src.Reads
+	if v == nil {
+		v = compareSeqs(&q, got)
+	}
+	if v != nil {
+		v.Text = "after the medium refused one call at a record boundary (the failed Write emitted nothing): " + v.Text
+		v.Site += "-after-refused-call"
+	}
+	return v
 }
 
 type gotSeq struct {
@@ -493,7 +594,12 @@ func runC01(t *testing.T, c *Case, o RunOpts) *Result {
 	if err := json.Unmarshal(c.Plan, &pl); err != nil {
 		return &Result{ToolErr: err.Error()}
 	}
+	pl.expand()
 	res := &Result{Hash: planHash(c), Trivial: len(pl.Recs) == 0}
+	if pl.Reject > 0 {
+		res.Viol = runReject(&pl, res)
+		return res
+	}
 	var text []byte
 	var writes int
 	var v *simrt.Violation
@@ -517,10 +623,20 @@ func runC01(t *testing.T, c *Case, o RunOpts) *Result {
 		if pv := guard(func() { _, _, v = writeSeqsTo(&pl, sink) }); pv != nil {
 			v = pv
 		}
-		res.Steps += len(sink.Calls)
+		res.Steps += sink.NCalls
 	}
 	res.Viol = v
 	return res
+}
+
+// hugeC01: a FASTQ record of 3 MiB + 17 letters between two small ones, and a
+// FASTA record of 17 MiB + 1 letters on a single line.
+func hugeC01() []*Case {
+	fq := C01Plan{Format: "fastq", Qual: true, Enc: int(alphabet.Sanger), Alpha: "dna", Delivery: simio.NoFault("block", 7),
+		Recs: []SeqRec{{Name: "a", Letters: "acgt", Quals: []int{1, 2, 3, 4}}, {Name: "huge", GenN: 3<<20 + 17}, {Name: "z", Letters: "tt", Quals: []int{9, 9}}}}
+	fa := C01Plan{Format: "fasta", Alpha: "dna", Width: 1 << 40, Delivery: simio.NoFault("block", 9),
+		Recs: []SeqRec{{Name: "huge", Desc: "one line", GenN: 17<<20 + 1}, {Name: "z", Letters: "acgt"}}}
+	return []*Case{{Prop: "C01", Kind: "fastq", Plan: marshalPlan(fq)}, {Prop: "C01", Kind: "fasta", Plan: marshalPlan(fa)}}
 }
 
 func shrinkC01(c *Case) []*Case {
@@ -587,6 +703,12 @@ func init() {
 	register(&Property{
 		ID: "C01",
 		Explore: func(t *testing.T, w *Worker, r *simrt.RNG) {
+			if w.unit == 0 {
+				// once per check: records far beyond any plausible internal limit
+				for _, h := range hugeC01() {
+					w.Report(h, runC01(t, h, RunOpts{}))
+				}
+			}
 			c := genC01(r)
 			w.Report(c, runC01(t, c, RunOpts{}))
 		},
